@@ -99,8 +99,21 @@ func Generate(rng *lib.Rng, n int, p Profile, bin, home, work string) ([]*Case, 
 	cases := make([]*Case, n)
 	for i := 0; i < n; i++ {
 		r := rng.Fork()
-		g := &Gen{R: r, P: p}
-		top := g.GenTop()
+		pc := p
+		if p.SimpleEvery > 0 && i%p.SimpleEvery == 0 {
+			pc.Simple = true
+		}
+		g := &Gen{R: r, P: pc}
+		var top *Top
+		if p.OrderLimit {
+			top = g.GenOrderLimitTop(i)
+		} else if p.Logic {
+			top = g.GenLogicTop(i)
+		} else if p.Nested {
+			top = g.GenNestedTop(i)
+		} else {
+			top = g.GenTop()
+		}
 		c := &Case{G: g, Top: top, Dir: filepath.Join(work, fmt.Sprintf("case%05d", i))}
 		if p.AllowErrors && r.Chance(1, 25) {
 			c.Inject = inject(g, top)
@@ -139,6 +152,26 @@ func AddCase(cf *lib.CaseFile, c *Case) int {
 	}
 	idx := cf.Add(c.Coq(), c.JSON(), nontrivial)
 	q := c.Top.Main
+	class := ""
+	if c.G.TripleName {
+		// three select items of one name in a grouping select: the tree without the fix gives two GroupBy
+		// columns the same name (finding class; see findings/C03.txt)
+		class = "c03-triple-name"
+		cf.SetClass(idx, class)
+	}
+	for k, n := range c.G.Shapes {
+		for j := 0; j < n; j++ {
+			cf.Count(k)
+		}
+	}
+	count0 := func(ok bool, key string) {
+		if ok {
+			cf.Count(key)
+		}
+	}
+	count0(len(c.G.Triggers) > 0, "with_trigger")
+	count0(q.Limit != nil && *q.Limit == 0, "limit_0")
+	count0(q.Limit != nil && len(q.OrderBy) > 0, "order_by_and_limit")
 	cf.Count(fmt.Sprintf("rows_out_%s", bucket(len(c.Rows))))
 	count := func(ok bool, key string) {
 		if ok {
@@ -163,15 +196,15 @@ func AddCase(cf *lib.CaseFile, c *Case) int {
 	}
 	switch {
 	case c.Res.TimedOut:
-		cf.Violation(idx, "the CLI did not finish within 30 s", "")
+		cf.Violation(idx, "the CLI did not finish within 30 s", class)
 	case c.Res.Crashed:
-		cf.Violation(idx, "the CLI crashed: "+lastLine(c.Res.Stderr), "")
+		cf.Violation(idx, "the CLI crashed: "+lastLine(c.Res.Stderr), class)
 	case c.ParseEr != nil:
-		cf.Violation(idx, "stdout of -o json is not the expected JSON lines: "+c.ParseEr.Error(), "")
+		cf.Violation(idx, "stdout of -o json is not the expected JSON lines: "+c.ParseEr.Error(), class)
 	case c.IsErr && c.Inject == "":
 		// decided by the tie as well (the model gives rows); say why here
-		cf.Violation(idx, "the CLI rejected a query of the fragment: "+lastLine(c.Res.Stderr), "")
-	case !c.IsErr && len(c.Rows) > 0:
+		cf.Violation(idx, "the CLI rejected a query of the fragment: "+lastLine(c.Res.Stderr), class)
+	case !c.IsErr && len(c.Rows) > 0 && class == "":
 		want := c.G.OutNames(c.Top.Main)
 		if strings.Join(want, "\x00") != strings.Join(c.Names, "\x00") {
 			cf.Violation(idx, fmt.Sprintf("printed column names %q, expected %q", c.Names, want), "")
@@ -244,6 +277,34 @@ func CrossCheck(c *Case, bin, home, mode string) string {
 		}
 		if !sameRows(c.Ordered(), c.Rows, rows) {
 			return fmt.Sprintf("--optimize=false prints different rows: %s", CoqRows(rows))
+		}
+	case "native_consolidated":
+		// insertions minus retractions of the -o stream_native stream = the rows (the TRIGGER family)
+		if !SimpleRows(c.Rows) {
+			return ""
+		}
+		res := RunCLI(bin, home, c.Dir, c.SQL, "-o", "stream_native")
+		if res.Crashed || res.ExitCode != 0 {
+			return "-o stream_native fails: " + lastLine(res.Stderr)
+		}
+		net := map[string]int{}
+		for _, line := range strings.Split(strings.TrimRight(string(res.Stdout), "\n"), "\n") {
+			if line == "" || strings.HasPrefix(line, "{~") {
+				continue
+			}
+			sign, vals, err := ParseNativeLine(line)
+			if err != nil {
+				return fmt.Sprintf("-o stream_native line %q: %v", line, err)
+			}
+			net[rowKey(vals)] += sign
+		}
+		for _, r := range c.Rows {
+			net[rowKey(r)]--
+		}
+		for k, n := range net {
+			if n != 0 {
+				return fmt.Sprintf("-o stream_native: insertions minus retractions differ from the -o json rows by %+d x %s; stream: %q", n, k, res.Stdout)
+			}
 		}
 	case "stream_native":
 		res := RunCLI(bin, home, c.Dir, c.SQL, "-o", "stream_native")
